@@ -361,7 +361,6 @@ package desync
 //@ func AssembleFile
 //@   prop C07 C01
 //@   safety none
-//@   requires offsetsBounded(idx.Chunks)
 //# C01, worker: a segment copied or cloned from a seed is recorded as written only after every chunk of it
 //# was read back from the target and its digest compared with the chunk's ID; a mismatch ends the worker
 //# with an error unless the caller asked for regeneration, in which case the chunk goes through writeChunk
@@ -370,7 +369,7 @@ package desync
 //@   lit 1: loop 2: invariant @C01 $regen || !segOK(job.segment) || chunksMatch(f, job.segment.index.Chunks[job.segment.first : job.segment.first + $i])
 //@   lit 1: assert@loop2.exit @C01 $regen || !segOK(job.segment) || chunksMatch(f, job.segment.index.Chunks[job.segment.first : job.segment.last + 1])
 //# the target is given the indexed length before anything is written (block devices keep their size)
-//@   oncall Truncate: requires @C01 $arg0 == name && $arg1 == indexLength(idx)
+//@   oncall Truncate: requires @C01 offsetsBounded(idx.Chunks) ==> $arg0 == name && $arg1 == indexLength(idx)
 //@   ghost@entry $eof = false
 //@   ghost@loop3.exit $eof = true
 //@   ensures r1 == nil ==> $eof
@@ -1515,9 +1514,12 @@ package desync
 //@     ite(is(v, FormatSymlink), CaFormatSymlink, ite(is(v, FormatDevice), CaFormatDevice, ite(is(v, FormatPayload), CaFormatPayload, ite(is(v, FormatGoodbye), CaFormatGoodbye, 0 - 2)))))))
 
 //@ func tar
-//@   prop C13 C07
+//@   prop C13 C07 C05
 //@   safety none
 //@   requires $wn >= 0
+//# C05: an entry is packed inside a directory's element exactly when the directory is its parent, under the
+//# last component of its name
+//@   oncall tar#2: requires @C05 pdir($arg3.Path) == dir
 //@   modifies all, $wn, $w, $wid, $sawDone
 //@   ghost@recv:ctx.Done() $sawDone = true
 //# every element handed to the encoder carries its own type and a size field equal to the bytes its encoding takes
